@@ -374,6 +374,9 @@ class Gen:
                     ok = self.try_op(opn, [rng.choice(S)], {}, ['S'])
                 elif opn == 'pow':
                     exps = [0, 1, 2, 3, 5, -1, -2, self.q - 1, self.q - 2, 254]
+                    # pow() has a dedicated addition chain for 254 (AES S-box): its neighbours and negatives, and
+                    # arbitrary positive / negative exponents
+                    exps += [-254, 253, 255, -253, -255, rng.randint(2, 300), -rng.randint(2, 300)]
                     if self.q < (1 << 20):
                         # exponents at and beyond the group order (a^(q-1) = 1 holds for a != 0 only)
                         exps += [self.q, self.q + 1, 2 * (self.q - 1), 3 * (self.q - 1), 2 * self.q, 1 - self.q,
